@@ -181,7 +181,16 @@ def _defs_of_operand_local(b, call_term):
         if cname(callee_name(t)) == 'SafetyDistances::standard':
             a = t['args'][0]
             if a['k'] in ('copy', 'move') and not a['place']['proj']:
-                return [d for d in b.defs().get(a['place']['local'], [])]
+                l = a['place']['local']
+                for _ in range(4):
+                    ds = [d for d in b.defs().get(l, [])]
+                    # a plain copy of another local (`let mode = match flag {..}; standard(mode)`): the definitions of that one count
+                    if len(ds) == 1 and ds[0][0] == 'st' and ds[0][3]['rv']['k'] == 'use' and ds[0][3]['rv']['op'].get('k') in ('copy', 'move') \
+                            and not ds[0][3]['rv']['op']['place']['proj']:
+                        l = ds[0][3]['rv']['op']['place']['local']
+                        continue
+                    return ds
+                return ds
     return []
 
 
